@@ -1,6 +1,7 @@
 package main
 
 import (
+	"unicode/utf8"
 	"fmt"
 	"go/constant"
 	"go/token"
@@ -711,11 +712,27 @@ func (e *Engine) convert(from, to types.Type, x Value) Value {
 						runes = append(runes, mkInt(int64(r)))
 					}
 				} else {
-					for _, b := range s.bytes {
-						if e.decide(tCmp(">=", b, mkInt(128))) {
+					for i := 0; i < len(s.bytes); {
+						b := s.bytes[i]
+						if b.konst && b.iv >= 128 {
+							// a constant multi-byte character inside a partly symbolic string
+							buf := []byte{}
+							for j := i; j < len(s.bytes) && j < i+4 && s.bytes[j].konst; j++ {
+								buf = append(buf, byte(s.bytes[j].iv))
+							}
+							r, size := utf8.DecodeRune(buf)
+							if r == utf8.RuneError && size <= 1 && len(buf) < 4 && i+len(buf) < len(s.bytes) {
+								unsupported("[]rune of a string whose multi-byte character has symbolic bytes")
+							}
+							runes = append(runes, mkInt(int64(r)))
+							i += size
+							continue
+						}
+						if !b.konst && e.decide(tCmp(">=", b, mkInt(128))) {
 							unsupported("[]rune of a string with a symbolic non-ASCII byte")
 						}
 						runes = append(runes, b)
+						i++
 					}
 				}
 				c := runeSliceCap(len(runes))
